@@ -1,6 +1,6 @@
 (* C15 — shape of the generated cases and the two executable verdicts. No proofs. *)
 From VLib Require Import CaseLib.
-From C15 Require Import Model Reach.
+From C15 Require Import Model Reach ModelPar ModelPL ModelUse.
 
 Definition kind_eqb (a b : kind) : bool :=
   match a, b with
@@ -103,7 +103,23 @@ Inductive case :=
    other numbers (those the fast path takes at face value): absent, current, stale, truncated,
    garbage, entries stripped to the name / emptied / partially filled / with zero or missing index
    size *)
-| CCache (strict : bool) (l : list cinfo) (expected ok wrong : N).
+| CCache (strict : bool) (l : list cinfo) (expected ok wrong : N)
+(* one retention pass over several outsiders: fractions in creation order (files before the pass), their
+   listed kind (LNone = not in the manager's list), number of fractions pushed out, the interleaved log
+   of visible operations (position of the fraction, operation) of the whole pass *)
+| CParLog (sorted : bool) (dir : list fracst) (kinds : list lkind) (k : nat) (log : list (nat * xop))
+(* a crash after the first `crash` operations of such a log (the observed interleaving or a re-ordering of
+   operations of different fractions): file sets of the rebuilt directory, restart observed (None = died) *)
+| CPar (sorted : bool) (dir : list fracst) (kinds : list lkind) (k : nat) (log : list (nat * xop)) (crash : nat)
+       (state : list (list kind)) (impl : option (list fracobs))
+(* power loss around a save of .frac-cache: the file holds `keep` of `full` bytes; parsed = encoding/json
+   accepted the cut content; rest as CCache (strict) *)
+| CCachePL (full keep : N) (parsed : bool) (l : list cinfo) (expected ok wrong : N)
+(* the operations one SaveCacheToDisk issued on .frac-cache* and the directory *)
+| CSaveOps (ops : list sop)
+(* readers against the deletion of the oldest fraction: actions of the driver, per action whether the
+   reader got a real provider and the files of the fraction afterwards *)
+| CUse (active : bool) (files0 : list kind) (acts : list uact) (obs : list (bool * list kind)).
 
 Definition broken (sorted : bool) (f : fracst) : bool :=
   negb (served_ok sorted (fs_of (st_files f))) && st_hasdata f.
@@ -127,6 +143,106 @@ Fixpoint frs_ok (d : list fracst) (o : list fracobs) : bool :=
   match d, o with
   | [], [] => true
   | f :: d', ob :: o' => obs_ok true (st_doomed f) ob && frs_ok d' o'
+  | _, _ => false
+  end.
+
+
+(* ---------------------------------------------------------------- parallel retention *)
+
+Definition is_del_kind (k : kind) : bool :=
+  match k with KDocsDel | KSdocsDel | KIndexDel => true | _ => false end.
+
+Definition del_seen (i : nat) (l : plog) : bool :=
+  existsb (fun e => Nat.eqb (fst e) i && match snd e with XRename _ b => is_del_kind b | _ => false end) l.
+
+Definition lkind_none (l : lkind) : bool := match l with LNone => true | _ => false end.
+
+(* per fraction: the model's program of the pass gives exactly the logged operations *)
+Fixpoint parlog_agree (i : nat) (dir : list fracst) (kinds : list lkind) (outs : list bool) (log : plog) : bool :=
+  match dir, kinds, outs with
+  | [], [], [] => true
+  | f :: dr, l :: kr, o :: orr =>
+      list_eqb xop_eqb (fst (exec (if o then pass_prog l else []) (fs_of (st_files f)))) (proj_log i log)
+      && parlog_agree (S i) dr kr orr log
+  | _, _, _ => false
+  end.
+
+(* every fraction the pass touched is one of the k oldest listed ones and is gone completely at the end *)
+Fixpoint parlog_ok (i : nat) (dir : list fracst) (outs : list bool) (log : plog) : bool :=
+  match dir, outs with
+  | [], [] => true
+  | f :: dr, o :: orr =>
+      let ops := proj_log i log in
+      (match ops with [] => true | _ => o end)
+      && (negb o || (negb (served_class (final_fs (fs_of (st_files f)) ops) (st_hasdata f))
+                     && residue_ok true (final_fs (fs_of (st_files f)) ops)))
+      && parlog_ok (S i) dr orr log
+  | _, _ => false
+  end.
+
+Fixpoint states_eqb (a : list fs) (b : list (list kind)) : bool :=
+  match a, b with
+  | [], [] => true
+  | x :: a', y :: b' => fs_eqb x (fs_of y) && states_eqb a' b'
+  | _, _ => false
+  end.
+
+Fixpoint restate (i : nat) (dir : list fracst) (state : list (list kind)) (pre : plog) : list fracst :=
+  match dir, state with
+  | f :: dr, s :: sr => mkst s (st_hasdata f) (st_doomed f || del_seen i pre) :: restate (S i) dr sr pre
+  | _, _ => []
+  end.
+
+(* a fraction with documents that the manager listed and whose deletion has not reached the disk is served *)
+Fixpoint untouched_served (i : nat) (dir : list fracst) (kinds : list lkind) (pre : plog) (o : list fracobs) : bool :=
+  match dir, kinds, o with
+  | [], [], [] => true
+  | f :: dr, l :: kr, ob :: orr =>
+      (negb (st_hasdata f) || lkind_none l || st_doomed f || match proj_log i pre with [] => false | _ => true end
+       || negb (lkind_none (o_listed ob)))
+      && untouched_served (S i) dr kr pre orr
+  | _, _, _ => false
+  end.
+
+(* ---------------------------------------------------------------- cache save *)
+
+Definition sop_eqb (a b : sop) : bool :=
+  match a, b with
+  | SCreateTmp, SCreateTmp | SWriteTmp, SWriteTmp | SRenameTmp, SRenameTmp | SFsyncFile, SFsyncFile | SFsyncDir, SFsyncDir => true
+  | _, _ => false
+  end.
+Definition is_fsync (o : sop) : bool := match o with SFsyncFile | SFsyncDir => true | _ => false end.
+
+Fixpoint write_before_rename (ops : list sop) (w : bool) : bool :=
+  match ops with
+  | [] => w
+  | SWriteTmp :: r => write_before_rename r true
+  | SRenameTmp :: r => w && write_before_rename r w
+  | _ :: r => write_before_rename r w
+  end.
+
+(* ---------------------------------------------------------------- readers against deletion *)
+
+Fixpoint uobs_eqb (a : list (bool * fs)) (b : list (bool * list kind)) : bool :=
+  match a, b with
+  | [], [] => true
+  | (g, f) :: a', (g', f') :: b' => Bool.eqb g g' && fs_eqb f (fs_of f') && uobs_eqb a' b'
+  | _, _ => false
+  end.
+
+(* c = providers handed out and not yet released; called = the deletion was requested *)
+Fixpoint use_ok (f0 : fs) (prev : fs) (c : nat) (called : bool) (acts : list uact) (obs : list (bool * list kind)) : bool :=
+  match acts, obs with
+  | [], [] => true
+  | a :: ar, (got, fl) :: orr =>
+      let f := fs_of fl in
+      let c' := match a with AAcq => if got then S c else c | ARel => pred c | ASuicide => c end in
+      let called' := called || match a with ASuicide => true | _ => false end in
+      (negb got || fs_eqb prev f0)                       (* a reader opens only files of an untouched fraction *)
+      && (Nat.eqb c' 0 || fs_eqb f f0)                   (* nothing is renamed or removed while a provider is out *)
+      && (negb (called' && Nat.eqb c' 0) || fs_eqb f empty_fs)   (* and then everything goes *)
+      && (called' || fs_eqb f f0)
+      && use_ok f0 f c' called' ar orr
   | _, _ => false
   end.
 
@@ -162,6 +278,24 @@ Definition case_agrees (c : case) : bool :=
       end
   | CShrink limit sizes removed => nat_list_eqb removed (seq 0 (shrink limit sizes))
   | CCache _ l _ _ _ => forallb (fun c => info_eqb (new_sealed (ci_entry c) (ci_hdr c)) (ci_impl c)) l
+  | CParLog sorted d kinds k log => parlog_agree 0 d kinds (outsiders k kinds) log
+  | CPar sorted d kinds k log crash state impl =>
+      let pre := firstn crash log in
+      states_eqb (apply_log pre (map (fun f => fs_of (st_files f)) d)) state
+      && let d' := restate 0 d state pre in
+         match load_dir sorted d', impl with
+         | None, None => true
+         | Some m, Some o => frs_agree sorted d' m o
+         | Some _, None => existsb (broken sorted) d'
+         | None, Some _ => false
+         end
+  | CCachePL full keep parsed l _ _ _ =>
+      Bool.eqb parsed (match pf_parse (mkpf [] (N.to_nat keep) (N.to_nat full)) with Some _ => true | None => false end)
+      && forallb (fun c => info_eqb (new_sealed (if parsed then ci_entry c else None) (ci_hdr c)) (ci_impl c)) l
+  | CSaveOps ops => list_eqb sop_eqb (filter (fun o => negb (is_fsync o)) ops) cache_save_ops
+  | CUse active files0 acts obs =>
+      let prog := if active then active_suicide_prog else sealed_suicide_prog in
+      uobs_eqb (uobs prog (fs_of files0) (u_init (fs_of files0)) acts) obs
   end.
 
 Definition case_spec_ok (c : case) : bool :=
@@ -187,6 +321,18 @@ Definition case_spec_ok (c : case) : bool :=
   | CCache strict l expected ok wrong =>
       (* independent of the model: same Info as from the index header, every document still served *)
       negb strict || (forallb (fun c => info_eqb (ci_hdr c) (ci_impl c)) l && N.eqb ok expected && N.eqb wrong 0)
+  | CParLog sorted d kinds k log =>
+      forallb (fun e => nth (fst e) (outsiders k kinds) false) log && parlog_ok 0 d (outsiders k kinds) log
+  | CPar sorted d kinds k log crash state impl =>
+      let pre := firstn crash log in
+      match impl with
+      | None => false
+      | Some o => frs_ok (restate 0 d state pre) o && untouched_served 0 d kinds pre o
+      end
+  | CCachePL full keep parsed l expected ok wrong =>
+      forallb (fun c => info_eqb (ci_hdr c) (ci_impl c)) l && N.eqb ok expected && N.eqb wrong 0
+  | CSaveOps ops => write_before_rename ops false
+  | CUse active files0 acts obs => use_ok (fs_of files0) (fs_of files0) 0 false acts obs
   end.
 
 Definition diff_indices (l : list case) : list nat := bad_indices (fun c => negb (case_agrees c)) l.
